@@ -54,10 +54,11 @@ CHECKS["C18"] = dict(
              thorough=dict(params=dict(ops=5, span=4), timeout=3400)),
         dict(pkg="pkg/jitterbuffer", entry="HC18Ops", params=dict(min=1, ops=4, span=3), flags=["-unwindviol", "-unwind", "40"],
              thorough=dict(params=dict(ops=5, span=4), timeout=3400)),
+        dict(pkg="pkg/jitterbuffer", entry="HC18Interceptor", require_covers=["playout started"]),
     ],
     bounds=dict(quick="JitterBuffer from New(min start 1|2), 4 operations chosen symbolically from {Push, Pop, PopAtSequence, PeekAtSequence, Clear}, sequence numbers base+0..3 for any 16-bit base (wrap included), distinct packet objects; list loops bounded by 40 iterations (excess = loop-forever violation)",
                 thorough="5 operations, span 4 (6 operations: not finished in 20 minutes)"),
-    outside=["more than 6 operations", "PopAtTimestamp/Peek(bool)/SetPlayoutHead", "event listeners", "the receiver interceptor wrapper"],
+    outside=["more than 6 operations", "PopAtTimestamp/Peek(bool)/SetPlayoutHead", "event listeners", "the receiver interceptor beyond two packets (start count 2, packets of 13..16 bytes read into a 40-byte buffer with stale bytes)"],
     assumptions=["sync.Mutex engine primitive", "pointer identity is concrete in the engine"],
 )
 
@@ -128,11 +129,11 @@ CHECKS["C02"] = dict(
         dict(pkg="internal/cc", entry="HC02AdapterTWCC", params=dict(kind=1, pad=0)),
         dict(pkg="internal/cc", entry="HC02AdapterTWCC", params=dict(kind=1, pad=1)),
     ] + [dict(pkg="internal/verifchain", entry="HC02RawRTP", params=dict(kind=k, len=L), flags=["-unwind", "1200"], require_covers=["untrusted packet handled"])
-         for (k, L) in ((3, 16), (5, 16), (6, 16), (7, 16), (3, 20), (5, 20))] + [
+         for (k, L) in ((3, 16), (5, 16), (6, 16), (7, 16), (8, 16), (3, 20), (5, 20), (8, 20))] + [
         dict(pkg="pkg/gcc", entry="HC02LeakyBucketSize", params=dict(concretenow=1, maxlen=1500), require_covers=["accepted"]),
         dict(pkg="pkg/gcc", entry="HC02LeakyBucketSize", params=dict(concretenow=1, maxlen=4000), require_covers=["accepted"]),
     ],
-    bounds=dict(quick="structurally inconsistent but parseable TWCC feedback (status count 0..4, run length 0..12 beyond the count, 7-symbol vector chunks with received padding, exactly the deltas rtcp.Unmarshal would produce) through rtpfb.convertTWCC and the gcc FeedbackAdapter; every index/nil/slice operation is an implicit assertion; a well-formed probe feedback afterwards. Raw RTP: ANY byte string of 16 bytes (20 for the NACK generator and report receiver) (all bytes symbolic except that the sequence-number field is within 8 of the probe packet's) with any reported length n <= that size (stale bytes beyond n symbolic too) through the BindRemoteStream reader of the NACK generator, report receiver, TWCC sender and RFC 8888 sender (real rtp.Header.Unmarshal from SSA), then a well-formed packet. Outgoing size: ANY payload length 0..1500 / 0..4000 through the gcc LeakyBucketPacer (Write on the caller, release by the pacer goroutine on a harness-fired tick), a second packet afterwards, Close",
+    bounds=dict(quick="structurally inconsistent but parseable TWCC feedback (status count 0..4, run length 0..12 beyond the count, 7-symbol vector chunks with received padding, exactly the deltas rtcp.Unmarshal would produce) through rtpfb.convertTWCC and the gcc FeedbackAdapter; every index/nil/slice operation is an implicit assertion; a well-formed probe feedback afterwards. Raw RTP: ANY byte string of 16 bytes (20 for the NACK generator and report receiver) (all bytes symbolic except that the sequence-number field is within 8 of the probe packet's) with any reported length n <= that size (stale bytes beyond n symbolic too) through the BindRemoteStream reader of the NACK generator, report receiver, TWCC sender, RFC 8888 sender and packetdump receiver (real rtp.Header.Unmarshal from SSA), then a well-formed packet. Outgoing size: ANY payload length 0..1500 / 0..4000 through the gcc LeakyBucketPacer (Write on the caller, release by the pacer goroutine on a harness-fired tick), a second packet afterwards, Close",
                 thorough="same"),
     outside=["raw RTCP byte strings (rtcp.Unmarshal on symbolic buffers)", "RTP buffers longer than 16-20 bytes (28 bytes did not finish in 20 min: CSRC/extension parsing paths)", "outgoing packet sizes above 4000 and through interceptors other than the leaky bucket pacer", "stats, packetdump, jitter buffer, flexfec, pacers, nack responder RTCP reader"],
     assumptions=["the unmarshal post-condition P_U used to build the structured feedback (DESIGN.md C02)"],
